@@ -35,7 +35,7 @@ def random_map(r: random.Random):
     r.shuffle(keys)
     direct = keys[:n]
     mac = keys[n:]
-    files = [None, "lib/a.exps", "../x/ü.exps", "b.exps"]
+    files = [None, "lib/a.exps", "../x/ü.exps", "b.exps", "..\\macros\\dir\\m.exps", "C:\\proj\\a b.exps", "/abs/x.exps"]
 
     def pm():
         return SourceMapPositionMark(r.randint(0, 50), r.randint(0, 80), r.randint(0, 50), r.randint(0, 80),
@@ -84,7 +84,11 @@ def random_mapping(r: random.Random, sm):
         new = r.sample(range(0, 100000), len(keep))
     else:
         new = sorted(r.sample(range(0, 100000), len(keep)))
-    return dict(zip(keep, new)), kind
+    pairs = list(zip(keep, new))
+    if r.random() < 0.5:
+        r.shuffle(pairs)  # (a mapping is a mapping: the order in which the caller filled it in does not matter)
+        kind += "+unordered"
+    return dict(pairs), kind
 
 
 def exercise(acc, sm, rnd, inp, origin):
@@ -114,7 +118,9 @@ def exercise(acc, sm, rnd, inp, origin):
         if monitors.COUNTS.get("K-SOURCEMAP:rewrite:evaluations", 0) == e1:
             acc.inconc("rewrite-monitor-not-evaluated")
         acc.count("rewrite_checked")
-        acc.count("mapping_kind:" + kind)
+        acc.count("mapping_kind:" + kind.replace("+unordered", ""))
+        if kind.endswith("+unordered"):
+            acc.count("mappings_filled_in_random_order")
         # the rewritten map is stored again (a map that was serialised before being rewritten must not hand out the old text)
         try:
             sm2.serialize()
